@@ -181,7 +181,7 @@ def measure_points(case, points):
             break
         cap = (FIRST_CAP if case['kind'] == 'nest' else 8 * FIRST_CAP) if prev is None else B * prev + 10 ** 4
         try:
-            cnt, res, exceeded = steps.measure(lambda: values.pp(v, width=case['width'], ribbon_width=case['width']), cap=cap)
+            cnt, res, exceeded = steps.measure(lambda: values.pp(v, guard=False, width=case['width'], ribbon_width=case['width']), cap=cap)
         except RecursionError:
             out.append((n, None, 'recursion'))
             break
